@@ -437,6 +437,94 @@ fn cmd_lexone(a: &Args) {
     std::process::exit(0);
 }
 
+/// History sweep: ONE client (one OS thread, one process) lexes the whole catalogue in a
+/// seeded random order; every result must equal the clean-room reference. For every ordered
+/// pair (A, B) about half of the permutations have A somewhere before B, so state that leaks
+/// from an earlier call - thread-local or process-wide - into a later one shows up here even
+/// when the pair is too specific for the random simulation to pick.
+fn cmd_sweep(a: &Args) {
+    let cat = load_catalogue(a);
+    let refs = load_refs(a.req("ref"));
+    let exclude: std::collections::HashSet<String> = a
+        .get("exclude")
+        .and_then(|f| std::fs::read_to_string(f).ok())
+        .map(|t| t.lines().map(|l| l.trim().to_string()).filter(|l| !l.is_empty()).collect())
+        .unwrap_or_default();
+    let base_seed = a.u64("seed", 1);
+    let perms = a.u64("perms", 1);
+    let first = a.u64("first-perm", 0);
+    let build = build_name(a);
+    let replay_dir = PathBuf::from(a.get("replay-dir").unwrap_or("/verif/replays"));
+    let t0 = Instant::now();
+    let mut total = Stats::default();
+    let mut nviol = 0u64;
+    let mut calls = 0u64;
+    for perm in first..first + perms {
+        let mut rng = util::Rng::derive(base_seed, 0x5EE9 ^ (perm << 8));
+        let mut order: Vec<usize> = (0..cat.sources.len()).filter(|&i| !exclude.contains(&cat.sources[i].id)).collect();
+        for i in (1..order.len()).rev() {
+            let j = rng.below(i as u64 + 1) as usize;
+            order.swap(i, j);
+        }
+        let sources: Vec<sim::SrcEntry> = order
+            .iter()
+            .map(|&i| sim::SrcEntry {
+                id: cat.sources[i].id.clone(),
+                text: cat.sources[i].text.clone(),
+                expect: refs.get(&cat.sources[i].id).cloned().unwrap_or_else(|| "?".into()),
+            })
+            .collect();
+        let ops: Vec<sim::Op> = (0..sources.len())
+            .map(|k| {
+                sim::Op::Lex(sim::LexOp {
+                    src: k,
+                    placement: sim::Placement::Exact,
+                    knobs: Default::default(),
+                    shrink_at: vec![],
+                    crash: None,
+                    keep: false,
+                })
+            })
+            .collect();
+        let sc = sim::Scenario {
+            seed: base_seed ^ perm,
+            strategy: sim::Strategy::RunToCompletion,
+            junk: None,
+            sources,
+            clients: vec![ops],
+            schedule: None,
+        };
+        let r = run_scenario(&sc);
+        total.add(&r.stats);
+        calls += r.outcomes.len() as u64;
+        if let Some(e) = &r.harness_error {
+            die(e);
+        }
+        if let Some(v) = r.violations.first() {
+            nviol += 1;
+            let m = minimise::minimise(&sc, v, Duration::from_secs(a.u64("minimise-seconds", 60)));
+            // the unminimised scenario is the whole catalogue: keep only the minimised one
+            let path = write_replay(&replay_dir, &format!("{build}-sweep"), base_seed, perm, &m, &m.scenario);
+            println!(
+                "sim-violation build={build} sweep perm={perm} class={} expected={} got={} replay={}",
+                m.violation.class(),
+                m.violation.expected,
+                m.violation.got,
+                path.display()
+            );
+            println!("violation\t{perm}\t{}\t{}", m.violation.class(), path.display());
+            break;
+        }
+    }
+    println!(
+        "sweep build={build} perms={perms} calls={calls} violations={nviol} wall_s={:.2}",
+        t0.elapsed().as_secs_f64()
+    );
+    if nviol > 0 {
+        std::process::exit(EXIT_VIOLATION);
+    }
+}
+
 /// Batch clean-room evaluation: input lines `tag<TAB>escaped text`, output `tag<TAB>key`.
 fn cmd_keys(a: &Args) {
     let text = std::fs::read_to_string(a.req("file")).unwrap_or_else(|e| die(&e.to_string()));
@@ -465,6 +553,7 @@ fn main() {
         Some("lexone") => cmd_lexone(&a),
         Some("catalogue") => cmd_catalogue(&a),
         Some("keys") => cmd_keys(&a),
+        Some("sweep") => cmd_sweep(&a),
         _ => {
             eprintln!("usage: c19sim ref|sim|replay|lexone|catalogue ...");
             std::process::exit(EXIT_HARNESS);
